@@ -196,20 +196,27 @@ type limits struct {
 }
 
 func startPlugin(ctl pipeline.InputPluginController, es bool, avgEventSize int, lim limits) *httpin.Plugin {
+	return startPluginAt(ctl, es, avgEventSize, lim, "off", zap.NewNop().Sugar())
+}
+
+// startPluginAt starts the plugin with the given `address` ("off": no
+// listener, requests go through ServeHTTP; "127.0.0.1:<port>": the plugin's
+// own listener, see stop.go).
+func startPluginAt(ctl pipeline.InputPluginController, es bool, avgEventSize int, lim limits, address string, lg *zap.SugaredLogger) *httpin.Plugin {
 	instMu.Lock()
 	instSeq++
 	id := instSeq
 	instMu.Unlock()
 	p, c := httpin.Factory()
 	conf := c.(*httpin.Config)
-	conf.Address = "off"
+	conf.Address = address
 	if es {
 		conf.EmulateMode = "elasticsearch"
 	}
 	if err := cfg.SetDefaultValues(conf); err != nil {
 		panic(err)
 	}
-	conf.Address = "off"
+	conf.Address = address
 	if err := cfg.Parse(conf, map[string]int{"gomaxprocs": 4}); err != nil {
 		panic(err)
 	}
@@ -221,7 +228,7 @@ func startPlugin(ctl pipeline.InputPluginController, es bool, avgEventSize int, 
 			MetricCtl: metric.NewCtl(fmt.Sprintf("c11_%d", id), prometheus.NewRegistry(), 0, 0),
 		},
 		Controller: ctl,
-		Logger:     zap.NewNop().Sugar(),
+		Logger:     lg,
 	}
 	pl := p.(*httpin.Plugin)
 	pl.Start(conf, params)
